@@ -96,7 +96,7 @@ impl Stream for Invocations
 	}
 	fn count(&self, tier: Tier) -> u64
 	{
-		tier.pick(1500, 40_000)
+		tier.pick(4000, 40_000)
 	}
 	fn choice_len(&self) -> usize
 	{
